@@ -49,6 +49,10 @@ def programs(tier):
     p("free then bounded", [("z", RL()), ("x", RL(-3.0, 4.0)), ("y", NN(1.0, INF))], [("a", [1.0, 1.0, 1.0], "LessOrEqual", 9.0), ("b", [1.0, 0.0, -1.0], "GreaterOrEqual", -5.0), ("c", [-1.0, 2.0, 0.0], "LessOrEqual", -1.0)], [1.0, 1.0, 1.0], "Max")
     p("default then bounded", [("x", NN()), ("y", NN(0.0, 3.0))], [("c", [1.0, 0.0], "LessOrEqual", 10.0)], [1.0, 1.0], "Max")
     p("half-bounded below", [("v", RL(-INF, 3.0)), ("w", NN())], [("r", [1.0, 1.0], "GreaterOrEqual", -1.0), ("t", [-1.0, 1.0], "LessOrEqual", 6.0)], [1.0, 1.0], "Max")
+    # a one-sided range whose finite end is the binding one at the optimum
+    p("lower end of a half-bounded range binds", [("x", RL(-5.0, INF)), ("y", NN(0.0, 8.0))], [("r", [1.0, 1.0], "GreaterOrEqual", -20.0)], [1.0, 0.5], "Min")
+    p("upper end of a half-bounded range binds", [("x", RL(-INF, 3.0)), ("y", NN())], [("a", [1.0, 1.0], "LessOrEqual", 5.0)], [2.0, 1.0], "Max")
+    p("upper end of a half-bounded range binds, wide row", [("x", RL(-INF, 3.0)), ("y", NN(0.0, 4.0))], [("a", [1.0, 1.0], "LessOrEqual", 50.0)], [1.0, 1.0], "Max", 1.5)
     # two-phase starts
     p("negative right-hand sides", [("x", NN()), ("y", NN())], [("a", [-1.0, -1.0], "LessOrEqual", -2.0), ("b", [1.0, -1.0], "GreaterOrEqual", -3.0), ("c", [1.0, 1.0], "LessOrEqual", 7.0)], [2.0, 1.0], "Min")
     p("redundant equality", [("x", NN()), ("y", NN())], [("e1", [1.0, 1.0], "Equal", 4.0), ("e2", [2.0, 2.0], "Equal", 8.0), ("c", [1.0, 0.0], "LessOrEqual", 3.0)], [1.0, -1.0], "Min")
@@ -253,6 +257,153 @@ def check(F, R, tier="quick", props=("C05", "C04", "C14", "C03")):
                 if isinstance(val, (int, float)) and abs(objv - val) > 1e-6 * max(1.0, abs(val)):
                     bad.append("the objective at the returned point is %r, the reported value %r" % (objv, val))
                 R.ob("SIMPLEX-EQUIV", key + ":point", not bad, where, "`%s`: returned point %s: %s" % (text, point, "; ".join(bad) or "feasible and consistent"))
+    if "C14" in props:
+        step_invariants(I, R, ps)
     R.count("SIMPLEX-EQUIV.optimal", n_opt)
     R.count("SIMPLEX-EQUIV.infeasible", n_inf)
     R.count("SIMPLEX-EQUIV.unbounded", n_unb)
+
+
+STD = "transformers::linear_model::LinearModel::into_standard_form"
+TAB = "transformers::standard_linear_model::StandardLinearModel::into_tableau"
+STEPS = "solvers::simplex::tableau::Tableau::solve_step_by_step"
+
+
+def _plain(v):
+    v = v.get() if isinstance(v, MutRef) else v
+    if isinstance(v, ListV):
+        return [_plain(x) for x in v.items]
+    return v
+
+
+def _tableau(t):
+    """(a, b, c, in_basis) of an evaluated Tableau, or None when it is laid out differently"""
+    t = t.get() if isinstance(t, MutRef) else t
+    if not isinstance(t, Var):
+        return None
+    try:
+        a, b, c, bs = (_plain(t.fields[k]) for k in ("a", "b", "c", "in_basis"))
+    except KeyError:
+        return None
+    num = lambda x: isinstance(x, (int, float)) and not isinstance(x, bool)
+    if not (isinstance(a, list) and isinstance(b, list) and isinstance(c, list) and isinstance(bs, list)):
+        return None
+    if len(a) != len(b) or len(bs) != len(b) or any(not isinstance(r, list) or len(r) != len(c) for r in a):
+        return None
+    if not all(num(x) for r in a for x in r) or not all(num(x) for x in b) or not all(num(x) for x in c) or not all(isinstance(j, int) and 0 <= j < len(c) for j in bs):
+        return None
+    return a, b, c, bs
+
+
+def step_invariants(I, R, ps):
+    """STEP-INVARIANT (C14): the crate's step-wise entry point evaluated pivot by pivot.
+
+    Tableau::solve_step_by_step records the tableau before every pivot; with the final one that is the whole sequence
+    T_0 .. T_n the method went through from the canonical tableau that into_tableau built.  For every T_k:
+      basis      the basic columns are unit columns (1 in their own row, 0 elsewhere, reduced cost 0)
+      feasible   the right-hand sides, i.e. the basic solution x_k, are non-negative
+      equivalent x_k satisfies the equations of T_0, and x_0 ... x_n all satisfy the equations of T_k (a pivot that changed
+                 the solution set would lose one of these points)
+      monotone   the objective of T_0 (its reduced costs, a function of x alone) at x_k is not worse than at x_(k-1)
+    and for the last one, when the method stops with a solution: no reduced cost is negative.  All comparisons with 1e-6
+    relative to the magnitudes involved; nothing here depends on how `current_value` is signed or stored."""
+    where = "packages/rooc/src/solvers/simplex/tableau.rs"
+    if F_missing(I, (STD, TAB, STEPS)):
+        R.undecided("STEP-INVARIANT", "anchor", where, "into_standard_form / into_tableau / solve_step_by_step not found")
+        return
+    R.fn(STEPS)
+    R.fn("solvers::simplex::tableau::Tableau::pivot")
+    n_seq = n_piv = 0
+    for md in ps:
+        key = md["label"].replace(" ", "-")
+        lm = c04rt.build_model(I, md)
+        if is_unknown(lm):
+            continue
+        std = I.call_fn(STD, [lm])
+        if not (isinstance(std, Var) and std.path in OK_PATHS):
+            continue
+        tb = I.call_fn(TAB, [std.args[0]])
+        if is_unknown(tb):
+            R.undecided("STEP-INVARIANT", key, where, "into_tableau not evaluable: %r" % (tb,))
+            continue
+        if not (isinstance(tb, Var) and tb.path in OK_PATHS):
+            continue            # infeasible in phase one: no sequence of pivots to look at (verdict: SIMPLEX-EQUIV)
+        t0 = tb.args[0]
+        first = _tableau(t0)
+        r = I.call_fn(STEPS, [t0, 300])
+        if is_unknown(r):
+            R.undecided("STEP-INVARIANT", key, where, "solve_step_by_step not evaluable: %r" % (r,))
+            continue
+        seq = None
+        finished = isinstance(r, Var) and r.path in OK_PATHS
+        if finished:
+            res = r.args[0]
+            try:
+                steps = res.fields["steps"]
+                seq = [_tableau(s.fields["tableau"]) for s in steps.items] + [_tableau(res.fields["result"].fields["tableau"])]
+            except (AttributeError, KeyError):
+                seq = None
+        else:
+            # unbounded / limit: the method worked in place, the tableau it stopped at is the last of the sequence
+            seq = [first, _tableau(t0)]
+        if first is None or seq is None or any(s is None for s in seq):
+            R.undecided("STEP-INVARIANT", key, where, "the recorded steps are laid out differently from {a, b, c, in_basis} / {steps[].tableau, result.tableau}")
+            continue
+        if seq[0] != first and finished:
+            seq = [first] + seq
+        n_seq += 1
+        n_piv += len(seq) - 1
+        a0, b0, c0, _ = first
+        tol = lambda *xs: 1e-6 * max([1.0] + [abs(x) for x in xs])
+        points = []
+        for (a, b, c, bs) in seq:
+            x = [0.0] * len(c)
+            for i, j in enumerate(bs):
+                x[j] = b[i]
+            points.append(x)
+        bad = []
+        prev_obj = None
+        for k, (a, b, c, bs) in enumerate(seq):
+            amax = max([abs(v) for r_ in a for v in r_] + [1.0])
+            if len(set(bs)) != len(bs):
+                bad.append("tableau %d: a column is basic in two rows %s" % (k, bs))
+            for i, j in enumerate(bs):
+                col = [a[r_][j] for r_ in range(len(a))]
+                if abs(col[i] - 1.0) > 1e-6 * amax or any(abs(col[r_]) > 1e-6 * amax for r_ in range(len(a)) if r_ != i) or abs(c[j]) > 1e-6 * max([1.0] + [abs(v) for v in c]):
+                    bad.append("tableau %d: basic column %d of row %d is %s with reduced cost %r, not a unit column" % (k, j, i, col, c[j]))
+                    break
+            neg = [(i, v) for i, v in enumerate(b) if v < -tol(*b)]
+            if neg:
+                bad.append("tableau %d: right-hand side %r of row %d is negative" % (k, neg[0][1], neg[0][0]))
+            x = points[k]
+            for i, row in enumerate(a0):
+                act = sum(p * q for p, q in zip(row, x))
+                if abs(act - b0[i]) > tol(b0[i], *[p * q for p, q in zip(row, x)]):
+                    bad.append("tableau %d: its basic solution %s gives %r in row %d of the first tableau, whose right-hand side is %r" % (k, x, act, i, b0[i]))
+                    break
+            for m, y in enumerate(points):
+                hit = False
+                for i, row in enumerate(a):
+                    act = sum(p * q for p, q in zip(row, y))
+                    if abs(act - b[i]) > tol(b[i], *[p * q for p, q in zip(row, y)]):
+                        bad.append("tableau %d: the basic solution %s of tableau %d gives %r in its row %d, whose right-hand side is %r: the systems are not equivalent" % (k, y, m, act, i, b[i]))
+                        hit = True
+                        break
+                if hit:
+                    break
+            obj = sum(p * q for p, q in zip(c0, x))
+            if prev_obj is not None and obj > prev_obj + tol(obj, prev_obj):
+                bad.append("tableau %d: the objective of the first tableau is %r at its basic solution, %r one pivot earlier: it got worse" % (k, obj, prev_obj))
+            prev_obj = obj
+        if finished:
+            a, b, c, bs = seq[-1]
+            negc = [(j, v) for j, v in enumerate(c) if v < -tol(*c)]
+            if negc:
+                bad.append("the method stopped with a solution while reduced cost %r of column %d is negative" % (negc[0][1], negc[0][0]))
+        R.ob("STEP-INVARIANT", key, not bad, where, "%d pivots: %s" % (len(seq) - 1, "; ".join(bad[:3]) or "unit basic columns, non-negative basic solutions, equivalent systems, monotone objective"))
+    R.count("STEP-INVARIANT.sequences", n_seq)
+    R.count("STEP-INVARIANT.pivots", n_piv)
+
+
+def F_missing(I, paths):
+    return any(I.F.fn(p) is None for p in paths)
